@@ -790,23 +790,20 @@ theorem nodup_of_map_repr {ids : List Nat} (h : (ids.map Nat.repr).Nodup) : ids.
   unfold List.Nodup at *
   exact List.Pairwise.of_map Nat.repr (by intro a b hab h2; exact hab (by rw [h2])) h
 
-/-- the core of `persister_recovers`: from a store holding monitor `M` and exactly the update files
-    `mid` above it, `readWithUpdates` over a healthy store returns `M` with `mid` applied in order. -/
-theorem recover_of_store (cfg : Cfg St Upd) (rsc : Sched) (hok : ∀ i, rsc.ok i = true) (w : World St Upd)
-    (name : String) (hn : cfg.nameOk name = true) (M : Mon St) (mid : List (Nat × Upd)) (sent : Bool)
-    (h1 : w.store.get (monKey name) = some (.mon sent name M)) (h2 : Files w.store name M.id mid)
-    (h3 : ∀ nm, (w.store.get (UPD, name, nm)).isSome = true → ∃ id, nm = Nat.repr id ∧ id ≤ M.id + mid.length)
-    (hwf : w.store.WF) (hL : M.id + mid.length ≤ L) :
-    (readWithUpdates cfg rsc w name).2 = .ok (fold cfg M mid) := by
-  have hnames : ∀ nm ∈ w.store.names UPD name, ∃ id, nm = Nat.repr id := by
+/-- what recovery will load: exactly the ids of `mid`, in increasing order -/
+theorem idsToLoad_of_store (s : PStore St Upd) (name : String) (b : Nat) (mid : List (Nat × Upd))
+    (h2 : Files s name b mid)
+    (h3 : ∀ nm, (s.get (UPD, name, nm)).isSome = true → ∃ id, nm = Nat.repr id ∧ id ≤ b + mid.length)
+    (hwf : s.WF) : idsToLoad (s.names UPD name) b = some (List.range' (b + 1) mid.length) := by
+  have hnames : ∀ nm ∈ s.names UPD name, ∃ id, nm = Nat.repr id := by
     intro nm hnm
     obtain ⟨id, h, _⟩ := h3 nm ((Store.mem_names_iff _ _ _ _).mp hnm)
     exact ⟨id, h⟩
   obtain ⟨ids, hm1, hm2⟩ := mapM_toNat_of_repr _ hnames
   have hnd : ids.Nodup := nodup_of_map_repr (by rw [← hm2]; exact Store.nodup_names hwf _ _)
-  have hmem : ∀ x, M.id < x → (x ∈ ids ↔ x ≤ M.id + mid.length) := by
+  have hmem : ∀ x, b < x → (x ∈ ids ↔ x ≤ b + mid.length) := by
     intro x hx
-    have e1 : x ∈ ids ↔ Nat.repr x ∈ w.store.names UPD name := by
+    have e1 : x ∈ ids ↔ Nat.repr x ∈ s.names UPD name := by
       rw [hm2, List.mem_map]
       constructor
       · intro h; exact ⟨x, h, rfl⟩
@@ -818,13 +815,22 @@ theorem recover_of_store (cfg : Cfg St Upd) (rsc : Sched) (hok : ∀ i, rsc.ok i
       rw [Nat.repr_inj.mp h4]; exact h5
     · intro h
       obtain ⟨u, hu⟩ := files_get h2 x hx h
-      show (w.store.get (updKey name x)).isSome = true
+      show (s.get (updKey name x)).isSome = true
       rw [hu]; rfl
-  have hload : idsToLoad (w.store.names UPD name) M.id = some (List.range' (M.id + 1) mid.length) := by
-    unfold idsToLoad
-    rw [hm1]
-    simp only [Option.map_some]
-    rw [load_eq_range ids hnd M.id mid.length hmem]
+  unfold idsToLoad
+  rw [hm1]
+  simp only [Option.map_some]
+  rw [load_eq_range ids hnd b mid.length hmem]
+
+/-- the core of `persister_recovers`: from a store holding monitor `M` and exactly the update files
+    `mid` above it, `readWithUpdates` over a healthy store returns `M` with `mid` applied in order. -/
+theorem recover_of_store (cfg : Cfg St Upd) (rsc : Sched) (hok : ∀ i, rsc.ok i = true) (w : World St Upd)
+    (name : String) (hn : cfg.nameOk name = true) (M : Mon St) (mid : List (Nat × Upd)) (sent : Bool)
+    (h1 : w.store.get (monKey name) = some (.mon sent name M)) (h2 : Files w.store name M.id mid)
+    (h3 : ∀ nm, (w.store.get (UPD, name, nm)).isSome = true → ∃ id, nm = Nat.repr id ∧ id ≤ M.id + mid.length)
+    (hwf : w.store.WF) (hL : M.id + mid.length ≤ L) :
+    (readWithUpdates cfg rsc w name).2 = .ok (fold cfg M mid) := by
+  have hload := idsToLoad_of_store w.store name M.id mid h2 h3 hwf
   have hl : (kList rsc w UPD name).2 = some (w.store.names UPD name) := by simp [kList, hok]
   have hr : (kRead rsc (kList rsc w UPD name).1 (monKey name)).2 = some (.mon sent name M) := by
     simp only [kRead, hok, if_true]; exact h1
@@ -836,4 +842,357 @@ theorem recover_of_store (cfg : Cfg St Upd) (rsc : Sched) (hok : ∀ i, rsc.ok i
   rw [readAllUpd_files rsc hok name mid M.id _ (by rw [kRead_store, kList_store]; exact h2)]
   exact applyAll_files cfg M mid w.store name h2 hL
 
+/-! ### the invariant of a node's life -/
+
+theorem updNs_ne_monKey (a nm b : String) : ((UPD, a, nm) : Key) ≠ monKey b := by
+  intro h
+  have : CHANNEL_MONITOR_UPDATE_PERSISTENCE_PRIMARY_NAMESPACE = CHANNEL_MONITOR_PERSISTENCE_PRIMARY_NAMESPACE := by
+    simp only [monKey] at h; injection h
+  revert this; decide
+
+/-- the store holds the monitor as of `pre`, the update files of `mid` right above it, and no other
+    update key above them -/
+def StoreInv (cfg : Cfg St Upd) (name : String) (m0 : Mon St) (s : PStore St Upd) (pre mid : List (Nat × Upd)) : Prop :=
+  ∃ sent, s.get (monKey name) = some (.mon sent name (fold cfg m0 pre)) ∧
+    Files s name (fold cfg m0 pre).id mid ∧
+    (∀ nm, (s.get (UPD, name, nm)).isSome = true → ∃ id, nm = Nat.repr id ∧ id ≤ (fold cfg m0 pre).id + mid.length) ∧
+    s.WF ∧ (fold cfg m0 pre).id + mid.length ≤ L ∧ (∀ x ∈ mid, persistUpdate x.1 cfg.maxPending = true)
+
+theorem storeInv_delSafe {cfg : Cfg St Upd} {name : String} {m0 : Mon St} {s s' : PStore St Upd}
+    {pre mid : List (Nat × Upd)} (h : StoreInv cfg name m0 s pre mid) (hd : DelSafe s s') (hwf : s'.WF) :
+    StoreInv cfg name m0 s' pre mid := by
+  obtain ⟨sent, h1, h2, h3, _, h5⟩ := h
+  refine ⟨sent, (hd.mon name).trans h1, files_congr ?_ h2, ?_, hwf, h5⟩
+  · intro id hlt _
+    rcases hd (updKey name id) with h6 | ⟨_, nm, id', hsafe, hk⟩
+    · exact h6
+    · obtain ⟨rfl, rfl⟩ := updKey_inj.mp hk
+      obtain ⟨sent', k, m, h7, h8⟩ := hsafe
+      rw [h1] at h7
+      injection h7 with h7; injection h7 with _ _ h9
+      subst h9; omega
+  · intro nm hs
+    rcases hd (UPD, name, nm) with h6 | ⟨h6, _⟩
+    · rw [h6] at hs; exact h3 nm hs
+    · rw [h6] at hs; cases hs
+
+theorem storeInv_fullWrite {cfg : Cfg St Upd} {name : String} {m0 : Mon St} {s : PStore St Upd}
+    {pre mid : List (Nat × Upd)} (h : StoreInv cfg name m0 s pre mid) (us' : List (Nat × Upd))
+    (hid : (fold cfg m0 pre).id + mid.length ≤ (fold cfg m0 us').id) (hL : (fold cfg m0 us').id ≤ L) (sentinel : Bool) :
+    StoreInv cfg name m0 (s.put (monKey name) (.mon sentinel name (fold cfg m0 us'))) us' [] := by
+  obtain ⟨_, _, _, h3, h4, _⟩ := h
+  refine ⟨sentinel, Store.get_put_same _ _ _, trivial, ?_, Store.wf_put h4 _ _, by simpa using hL, by intro x hx; cases hx⟩
+  intro nm hs
+  rw [Store.get_put_ne _ _ (updNs_ne_monKey name nm name)] at hs
+  obtain ⟨id, h5, h6⟩ := h3 nm hs
+  exact ⟨id, h5, by simp only [List.length_nil, Nat.add_zero]; omega⟩
+
+theorem storeInv_updWrite {cfg : Cfg St Upd} {name : String} {m0 : Mon St} {s : PStore St Upd}
+    {pre mid : List (Nat × Upd)} (h : StoreInv cfg name m0 s pre mid) (uid : Nat) (u : Upd)
+    (huid : uid = (fold cfg m0 pre).id + mid.length + 1) (hL : uid ≤ L) (hpu : persistUpdate uid cfg.maxPending = true) :
+    StoreInv cfg name m0 (s.put (updKey name uid) (.upd uid u)) pre (mid ++ [(uid, u)]) := by
+  obtain ⟨sent, h1, h2, h3, h4, _, h6⟩ := h
+  refine ⟨sent, ?_, ?_, ?_, Store.wf_put h4 _ _, by simp only [List.length_append, List.length_singleton]; omega, ?_⟩
+  rotate_right
+  · intro x hx
+    rcases List.mem_append.mp hx with hx | hx
+    · exact h6 x hx
+    · simp only [List.mem_singleton] at hx; subst hx; exact hpu
+  · rw [Store.get_put_ne _ _ (monKey_ne_updKey _ _ _)]; exact h1
+  · rw [files_append]
+    refine ⟨files_congr ?_ h2, huid, Store.get_put_same _ _ _⟩
+    intro id _ hle
+    exact Store.get_put_ne _ _ (by intro h; have := (updKey_inj.mp h).2; omega)
+  · intro nm hs
+    by_cases hk : ((UPD, name, nm) : Key) = updKey name uid
+    · refine ⟨uid, ?_, by simp only [List.length_append, List.length_singleton]; omega⟩
+      simp only [updKey] at hk; injection hk with _ h5; injection h5
+    · rw [Store.get_put_ne _ _ hk] at hs
+      obtain ⟨id, h5, h6⟩ := h3 nm hs
+      exact ⟨id, h5, by simp only [List.length_append, List.length_singleton]; omega⟩
+
+def Inv (cfg : Cfg St Upd) (name : String) (m0 : Mon St) (r : Run St Upd) : Prop :=
+  ∃ pre mid post, r.applied = pre ++ mid ++ post ∧ StoreInv cfg name m0 r.w.store pre mid ∧
+    r.completed ≤ (pre ++ mid).length ∧
+    (r.alive = true → post = [] ∧ r.completed = r.applied.length ∧ r.mem = fold cfg m0 r.applied)
+
+theorem ite_le_succ (c : Prop) [Decidable c] (x : Nat) : (if c then x + 1 else x) ≤ x + 1 := by
+  split <;> omega
+
+theorem applyUpd_some {cfg : Cfg St Upd} {m m' : Mon St} {uid : Nat} {u : Upd} (h : applyUpd cfg m uid u = some m') :
+    m' = ⟨uid, cfg.apply m.st u⟩ ∧ (uid = L ∨ (m.id + 1 = uid ∧ uid ≤ L)) := by
+  unfold applyUpd at h
+  split at h
+  · rename_i h1; injection h with h; exact ⟨h.symm, Or.inl h1⟩
+  · split at h
+    · rename_i h2; injection h with h; exact ⟨h.symm, Or.inr h2⟩
+    · cases h
+
+theorem persistUpdate_ne_legacy {uid n : Nat} (h : persistUpdate uid n = true) : uid ≠ L := by
+  unfold persistUpdate at h
+  simp only [Bool.and_eq_true, decide_eq_true_eq] at h
+  exact h.1.1
+
+theorem inv_start (cfg : Cfg St Upd) (sc : Sched) (name : String) (s0 : PStore St Upd) (m0 : Mon St)
+    (hwf : s0.WF) (hL : m0.id ≤ L)
+    (hfresh : ∀ nm, (s0.get (UPD, name, nm)).isSome = true → ∃ id, nm = Nat.repr id ∧ id ≤ m0.id)
+    (hst : (start cfg sc name s0 m0).started = true) : Inv cfg name m0 (start cfg sc name s0 m0) := by
+  have hok : (persistNew cfg sc { store := s0 } name m0).2 = true := hst
+  have hs : (start cfg sc name s0 m0).w.store = s0.put (monKey name) (.mon (sentinelWhen cfg.maxPending) name m0) :=
+    kWrite_ok_store hok
+  refine ⟨[], [], [], rfl, ?_, Nat.zero_le _, fun _ => ⟨rfl, rfl, rfl⟩⟩
+  rw [hs]
+  refine ⟨_, Store.get_put_same _ _ _, trivial, ?_, Store.wf_put hwf _ _, by simpa [fold] using hL, by intro x hx; cases hx⟩
+  intro nm h
+  rw [Store.get_put_ne _ _ (updNs_ne_monKey name nm name)] at h
+  obtain ⟨id, h1, h2⟩ := hfresh nm h
+  exact ⟨id, h1, by simpa [fold] using h2⟩
+
+theorem stepEv_dead (cfg : Cfg St Upd) (sc : Sched) (name : String) (r : Run St Upd) (ev : Ev Upd)
+    (h : r.alive = false) : stepEv cfg sc name r ev = r := by
+  cases ev <;> simp [stepEv, h]
+
+theorem inv_step (cfg : Cfg St Upd) (sc : Sched) (name : String) (m0 : Mon St) (r : Run St Upd) (ev : Ev Upd)
+    (h : Inv cfg name m0 r) : Inv cfg name m0 (stepEv cfg sc name r ev) := by
+  cases hal0 : r.alive
+  · rw [stepEv_dead cfg sc name r ev hal0]; exact h
+  have hal : r.alive = true := hal0
+  clear hal0
+  obtain ⟨pre, mid, post, happ, hst, hcomp, halive⟩ := h
+  obtain ⟨rfl, hc, hmem⟩ := halive hal
+  simp only [List.append_nil] at happ hcomp
+  obtain ⟨_, _, hfiles, _, hwf, hbnd, _⟩ := id hst
+  have hmemid : r.mem.id = (fold cfg m0 pre).id + mid.length := by
+    rw [hmem, happ, fold_append]; exact files_fold_id cfg hfiles
+  have hbound : r.mem.id ≤ L := by rw [hmemid]; exact hbnd
+  cases ev with
+  | cleanupStale lz =>
+    simp only [stepEv, hal, Bool.not_true, Bool.false_eq_true, if_false]
+    have hcl := clean_cleanupStale cfg sc lz r.w
+    exact ⟨pre, mid, [], by simpa using happ, storeInv_delSafe hst hcl.delSafe (hcl.wf hwf), by simpa using hcomp,
+      fun _ => ⟨rfl, hc, hmem⟩⟩
+  | full =>
+    simp only [stepEv, hal, Bool.not_true, Bool.false_eq_true, if_false]
+    obtain ⟨hext, s1, hs1, hd⟩ := updatePersisted_full_spec cfg sc r.w name none r.mem (by intro _ _ h; cases h)
+    have hwf' := hext.wf hwf
+    rcases hs1 with hs1 | ⟨hs1, hfail⟩
+    · subst hs1
+      have h1 : StoreInv cfg name m0 (r.w.store.put (monKey name) (.mon (sentinelWhen cfg.maxPending) name r.mem)) r.applied [] := by
+        rw [hmem]
+        exact storeInv_fullWrite hst r.applied (by rw [← hmem, hmemid]; exact Nat.le_refl _) (by rw [← hmem]; exact hbound) _
+      exact ⟨r.applied, [], [], by simp, storeInv_delSafe h1 hd hwf', by simp [hc], fun _ => ⟨rfl, hc, hmem⟩⟩
+    · subst hs1
+      refine ⟨pre, mid, [], by simpa using happ, storeInv_delSafe hst hd hwf', by simpa using hcomp, ?_⟩
+      intro h; simp only at h; rw [hfail] at h; cases h
+  | update uid u asFull =>
+    simp only [stepEv, hal, Bool.not_true, Bool.false_eq_true, if_false]
+    split
+    · exact ⟨pre, mid, [], by simpa using happ, hst, by simpa using hcomp, fun h => by cases h⟩
+    · rename_i m' hap
+      obtain ⟨hm', hcase⟩ := applyUpd_some hap
+      have huL : uid ≤ L := by
+        rcases hcase with h | h
+        · rw [h]; exact Nat.le_refl _
+        · exact h.2
+      have hge : r.mem.id ≤ uid := by
+        rcases hcase with h | h
+        · rw [h]; exact hbound
+        · omega
+      have hfold : m' = fold cfg m0 (r.applied ++ [(uid, u)]) := by
+        rw [fold_append, ← hmem, hm']; rfl
+      have hm'id : m'.id = uid := by rw [hm']
+      by_cases hfile : asFull = false ∧ persistUpdate uid cfg.maxPending = true
+      · -- an update file is written
+        obtain ⟨haf, hpu⟩ := hfile
+        have huid : uid = (fold cfg m0 pre).id + mid.length + 1 := by
+          rcases hcase with h | h
+          · exact absurd h (persistUpdate_ne_legacy hpu)
+          · omega
+        simp only [haf, Bool.false_eq_true, if_false, updatePersisted, hpu, if_true]
+        rcases kWrite_cases sc r.w (updKey name uid) (.upd uid u) with hs | ⟨hs, hfail⟩
+        · refine ⟨pre, mid ++ [(uid, u)], [], by simp [happ], ?_, ?_, ?_⟩
+          · rw [hs]; exact storeInv_updWrite hst uid u huid huL hpu
+          · simp only [List.length_append, List.length_singleton] at hcomp ⊢
+            split <;> omega
+          · intro hok
+            simp only at hok
+            refine ⟨rfl, ?_, hfold⟩
+            simp only [hok, if_true, List.length_append, List.length_singleton]; omega
+        · refine ⟨pre, mid, [(uid, u)], by simp [happ], by rw [hs]; exact hst, ?_, ?_⟩
+          · simp only [hfail, Bool.false_eq_true, if_false]; exact hcomp
+          · intro hok; simp only at hok; rw [hfail] at hok; cases hok
+      · -- the full monitor is written
+        have hfull : ∀ a b, (if asFull = true then none else some (uid, u)) = some (a, b) →
+            persistUpdate a cfg.maxPending = false := by
+          intro a b hab
+          cases haf : asFull
+          · simp only [haf, Bool.false_eq_true, if_false] at hab
+            injection hab with hab; injection hab with h1 _
+            subst h1
+            cases hp : persistUpdate uid cfg.maxPending
+            · rfl
+            · exact absurd ⟨haf, hp⟩ hfile
+          · simp [haf] at hab
+        obtain ⟨hext, s1, hs1, hd⟩ := updatePersisted_full_spec cfg sc r.w name _ m' hfull
+        have hwf' := hext.wf hwf
+        rcases hs1 with hs1 | ⟨hs1, hfail⟩
+        · subst hs1
+          have h1 : StoreInv cfg name m0 (r.w.store.put (monKey name) (.mon (sentinelWhen cfg.maxPending) name m'))
+              (r.applied ++ [(uid, u)]) [] := by
+            rw [hfold]
+            exact storeInv_fullWrite hst _ (by rw [← hfold, hm'id, ← hmemid]; exact hge) (by rw [← hfold, hm'id]; exact huL) _
+          refine ⟨r.applied ++ [(uid, u)], [], [], by simp, storeInv_delSafe h1 hd hwf', ?_, ?_⟩
+          · simp only [List.append_nil, List.length_append, List.length_singleton]
+            exact Nat.le_trans (ite_le_succ _ _) (by omega)
+          · intro hok
+            simp only at hok
+            refine ⟨rfl, ?_, hfold⟩
+            simp only [hok, if_true, List.length_append, List.length_singleton]; omega
+        · subst hs1
+          refine ⟨pre, mid, [(uid, u)], by simp [happ], storeInv_delSafe hst hd hwf', ?_, ?_⟩
+          · simp only [hfail, Bool.false_eq_true, if_false]; exact hcomp
+          · intro hok; simp only at hok; rw [hfail] at hok; cases hok
+
+theorem stepEv_started (cfg : Cfg St Upd) (sc : Sched) (name : String) (r : Run St Upd) (ev : Ev Upd) :
+    (stepEv cfg sc name r ev).started = r.started := by
+  cases ev <;> simp only [stepEv] <;> split <;> try rfl
+  split <;> rfl
+
+theorem inv_runHistory (cfg : Cfg St Upd) (sc : Sched) (name : String) (s0 : PStore St Upd) (m0 : Mon St)
+    (evs : List (Ev Upd)) (hwf : s0.WF) (hL : m0.id ≤ L)
+    (hfresh : ∀ nm, (s0.get (UPD, name, nm)).isSome = true → ∃ id, nm = Nat.repr id ∧ id ≤ m0.id)
+    (hst : (runHistory cfg sc name s0 m0 evs).started = true) :
+    Inv cfg name m0 (runHistory cfg sc name s0 m0 evs) := by
+  have hst0 : (start cfg sc name s0 m0).started = true := by
+    unfold runHistory at hst
+    generalize start cfg sc name s0 m0 = r at hst
+    induction evs generalizing r with
+    | nil => exact hst
+    | cons e rest ih => rw [← stepEv_started cfg sc name r e]; exact ih _ hst
+  have h0 := inv_start cfg sc name s0 m0 hwf hL hfresh hst0
+  clear hst hst0
+  unfold runHistory
+  generalize start cfg sc name s0 m0 = r at h0
+  induction evs generalizing r with
+  | nil => exact h0
+  | cons e rest ih => exact ih _ (inv_step cfg sc name m0 r e h0)
+
+/-! ### the window of update files above the stored monitor -/
+
+theorem files_mem {s : PStore St Upd} {name : String} {b : Nat} {mid : List (Nat × Upd)} (hf : Files s name b mid)
+    (d : Nat) (h1 : 1 ≤ d) (h2 : d ≤ mid.length) : ∃ x ∈ mid, x.1 = b + d := by
+  induction mid generalizing b d with
+  | nil => simp at h2; omega
+  | cons y r ih =>
+    obtain ⟨h3, _, h5⟩ := hf
+    by_cases h6 : d = 1
+    · exact ⟨y, List.mem_cons_self .., by omega⟩
+    · obtain ⟨x, hx, hx2⟩ := ih h5 (d - 1) (by omega) (by simp only [List.length_cons] at h2; omega)
+      exact ⟨x, List.mem_cons_of_mem _ hx, by omega⟩
+
+theorem multiple_in_window (b n : Nat) (hn : n ≠ 0) : ∃ d, 1 ≤ d ∧ d ≤ n ∧ (b + d) % n = 0 := by
+  refine ⟨n - b % n, ?_, by omega, ?_⟩
+  · have := Nat.mod_lt b (Nat.pos_of_ne_zero hn); omega
+  · have h1 := Nat.div_add_mod b n
+    have h2 := Nat.mod_lt b (Nat.pos_of_ne_zero hn)
+    have : b + (n - b % n) = n * (b / n) + n := by omega
+    rw [this, Nat.add_mod_right, Nat.mul_mod_right]
+
+theorem window_le {s : PStore St Upd} {name : String} {b n : Nat} {mid : List (Nat × Upd)} (hf : Files s name b mid)
+    (hp : ∀ x ∈ mid, persistUpdate x.1 n = true) : mid.length ≤ n - 1 := by
+  by_cases hn : n = 0
+  · subst hn
+    cases mid with
+    | nil => simp
+    | cons y r => have := hp y (List.mem_cons_self ..); simp [persistUpdate] at this
+  · obtain ⟨d, h1, h2, h3⟩ := multiple_in_window b n hn
+    by_cases h4 : d ≤ mid.length
+    · obtain ⟨x, hx, hx2⟩ := files_mem hf d h1 h4
+      have := hp x hx
+      simp only [persistUpdate, Bool.and_eq_true, decide_eq_true_eq] at this
+      rw [hx2] at this
+      exact absurd h3 this.2
+    · omega
+
 end Ldk.MonP
+
+namespace Ldk.Kv
+variable {ν : Type}
+
+theorem validKey_iff (k : Key) : validKey k = true ↔ checkKey k = .ok () := by
+  unfold validKey
+  cases h : checkKey k <;> simp
+
+/-- effect of one op on one key, in terms of the spec step of `lastWrite` -/
+theorem get_apply (s : Store ν) (op : KvOp ν) (k : Key) :
+    ((KvOp.apply s op).1).get k =
+      (match op with
+       | .write k' v => if k' = k ∧ validKey k' then some v else s.get k
+       | .remove k' _ => if k' = k ∧ validKey k' then none else s.get k
+       | _ => s.get k) := by
+  cases op with
+  | write k' v =>
+    simp only [KvOp.apply]
+    cases h : checkKey k' with
+    | error e => simp [validKey, h]
+    | ok u =>
+      have hv : validKey k' = true := by simp [validKey, h]
+      by_cases hk : k' = k
+      · subst hk; simp [hv, Store.get_put_same]
+      · have : k ≠ k' := fun h => hk h.symm
+        simp [hk, Store.get_put_ne _ _ this]
+  | remove k' lz =>
+    simp only [KvOp.apply]
+    cases h : checkKey k' with
+    | error e => simp [validKey, h]
+    | ok u =>
+      have hv : validKey k' = true := by simp [validKey, h]
+      by_cases hk : k' = k
+      · subst hk; simp [hv, Store.get_del_same]
+      · have : k ≠ k' := fun h => hk h.symm
+        simp [hk, Store.get_del_ne _ this]
+  | read k' =>
+    simp only [KvOp.apply]
+    cases checkKey k' with
+    | error e => rfl
+    | ok u => cases s.get k' <;> rfl
+  | list p sn =>
+    simp only [KvOp.apply]
+    cases checkNs p sn <;> rfl
+
+theorem get_run_aux (ops : List (KvOp ν)) (k : Key) : ∀ (s : Store ν) (acc : Option ν), s.get k = acc →
+    (run s ops).get k = ops.foldl (fun acc op => match op with
+      | .write k' v => if k' = k ∧ validKey k' then some v else acc
+      | .remove k' _ => if k' = k ∧ validKey k' then none else acc
+      | _ => acc) acc := by
+  induction ops with
+  | nil => intro s acc h; exact h
+  | cons op r ih =>
+    intro s acc h
+    simp only [run, List.foldl_cons]
+    apply ih
+    rw [get_apply, h]
+
+theorem get_run (ops : List (KvOp ν)) (k : Key) : (run [] ops).get k = lastWrite ops k :=
+  get_run_aux ops k [] none rfl
+
+theorem apply_wf {s : Store ν} (h : s.WF) (op : KvOp ν) : (KvOp.apply s op).1.WF := by
+  cases op with
+  | write k v => simp only [KvOp.apply]; cases checkKey k <;> simp [h, Store.wf_put]
+  | remove k lz => simp only [KvOp.apply]; cases checkKey k <;> simp [h, Store.wf_del]
+  | read k =>
+    simp only [KvOp.apply]
+    cases checkKey k with
+    | error e => exact h
+    | ok u => cases s.get k <;> exact h
+  | list p sn => simp only [KvOp.apply]; cases checkNs p sn <;> exact h
+
+theorem run_wf (ops : List (KvOp ν)) : ∀ (s : Store ν), s.WF → (run s ops).WF := by
+  induction ops with
+  | nil => intro s h; exact h
+  | cons op r ih => intro s h; exact ih _ (apply_wf h op)
+
+theorem run_append (s : Store ν) (a b : List (KvOp ν)) : run s (a ++ b) = run (run s a) b := by
+  simp [run, List.foldl_append]
+
+end Ldk.Kv
